@@ -562,7 +562,15 @@ def execute(plan):
                     res.violate(f"C10|{plan['kind']}|3:field_reported_exceeding|{path_kind}|{me}",
                                 f"ExceedError for {item!r}, which is a declared field; reported {co[3]}")
             seen_pairs = set()
+            seen_items = set()
             for cls_name, item in co[3]:
+                if item is not None and item in seen_items and (cls_name, item) not in seen_pairs:
+                    # one failing item, one entry - whatever the classes of the errors (a duplicate also uses up max_errors)
+                    res.violate(f"C10|{plan['kind']}|3:item_reported_twice|{path_kind}|{me}",
+                                f"{item!r} is reported more than once, under different error classes: {co[3]}")
+                    break
+                if item is not None:
+                    seen_items.add(item)
                 if item is not None and cls_name in ("ParseError", "AliasConflictError") and \
                         {("ParseError", item), ("AliasConflictError", item)} & seen_pairs - {(cls_name, item)}:
                     # two spellings that disagree: the item is reported as a conflict, and not once more for one of its values
